@@ -115,11 +115,17 @@ def case_st(draw):
     cuts = sorted(set(draw(st.lists(st.integers(1, max(1, n - 1)), max_size=8)))) if n > 1 and draw(st.integers(0, 2)) else []
     term = draw(st.sampled_from(["clean", "clean", "clean", "fin", "reset", "stall", "trickle"]))
     term_at = n if draw(st.integers(0, 3)) else draw(st.integers(0, n))
+    if "body:cap" in s["labels"] and draw(st.booleans()):
+        term, term_at = "stall", n   # around the size cap, then silence
     return {"stream": s["stream"], "labels": s["labels"], "cuts": cuts, "term": term, "term_at": term_at,
             "op": draw(st.sampled_from(["get", "get", "upload"])),
             # client lane only: trust-on-first-use on (the request goes out after the pin check) or off; and how many bytes
             # of its answer an eager server sends before it has even read the request
-            "tofu": draw(st.booleans()), "early": draw(st.sampled_from([0, 0, 0, 1, 3, 16, 10**6]))}
+            "tofu": draw(st.booleans()), "early": draw(st.sampled_from([0, 0, 0, 1, 3, 16, 10**6])),
+            # whether the server answers the client's TLS close_notify (a stalled or naive server does not)
+            "answer_close": draw(st.booleans()),
+            # a second call on the same client object in flight at the same time (to a prompt, well-behaved server)
+            "companion": draw(st.integers(0, 3)) == 0}
 
 
 # --------------------------------------------------------------------------
@@ -228,6 +234,12 @@ def judge(case, outcome, exp, t_info):
             # may report "application data after close notify" before the call is resolved - a malformed peer, either
             # outcome names what happened
             return grey("eager-server-sent-data-after-non-2x-header", **info)
+        if case.get("answer_close") is False and exp[0] == "resp" and exp[3] is None and \
+                (case.get("term") in ("trickle", "stall", "reset", "fin") or len(D_) > D_.find(b"\r\n") + 2):
+            # a server that ignores the client's close_notify after a non-2x header and goes quiet or keeps sending: the call
+            # may end with the header it has, or with the error the TLS layer ("application data after close notify") or
+            # the timeout reports
+            return grey("server-never-finishes-after-non-2x-header", **info)
         if case.get("early") and case.get("term") in ("reset", "fin"):
             # an eager server that also cuts the connection: whether the client's own close or the peer's reset is seen
             # first is a race; the statement allows either outcome when the server resets
@@ -340,13 +352,28 @@ def run_client(case: dict):
         import ssl as _ssl
 
         v12 = {"minv": _ssl.TLSVersion.TLSv1_2, "maxv": _ssl.TLSVersion.TLSv1_2} if early else {}
-        peer = memnet.ScriptedPeer(certs.get("ec-a"), script, **v12)
+        peer = memnet.ScriptedPeer(certs.get("ec-a"), script, answer_close=case.get("answer_close", True), **v12)
         peer.early_data = D[:early]  # an eager TLS 1.2 server: these bytes travel with its Finished
         net.add("h", 1965, peer)
         if case.get("tofu"):
             client = GeminiClient(timeout=TIMEOUT, tofu_db_path=Path(tofu_dir) / "tofu.db")
         else:
             client = GeminiClient(timeout=TIMEOUT, trust_on_first_use=False)
+        comp_task = None
+        if case.get("companion"):
+            # a well-behaved second server that takes a second to answer; the call to it starts right after the main one
+            net.add("h2", 1965, memnet.ScriptedPeer(certs.get("ec-a"), [("wait_request", 2.0), ("sleep", 1.0),
+                                                                          ("send", b"20 text/plain\r\ncompanion"), ("close",)]))
+
+            async def companion():
+                await asyncio.sleep(0.05)
+                try:
+                    r2 = await client.get("gemini://h2/y", follow_redirects=False)
+                    return ("resp", r2.status, r2.meta, r2.body)
+                except Exception as e2:
+                    return ("exc", type(e2).__name__, str(e2)[:80])
+
+            comp_task = loop.create_task(companion())
         t0 = loop.time()
         try:
             if case["op"] == "get":
@@ -359,12 +386,15 @@ def run_client(case: dict):
         except Exception as e:
             outcome = ("exc", type(e).__name__)
         t1 = loop.time()
+        if comp_task is not None:
+            comp_result[0] = await comp_task
         conn = peer.conns[0] if peer.conns else None
         marks = [e[1] for e in (conn.events if conn else []) if e[0] == "mark"]
         return outcome, t1 - t0, (t1 - marks[0]) if marks else None
 
     from vlib import scratch
 
+    comp_result = [None]
     tofu_dir = scratch.subdir("c13-tofu")
     try:
         outcome, dur, since_close = vloop.run(scenario, horizon=10000)
@@ -373,7 +403,16 @@ def run_client(case: dict):
 
         shutil.rmtree(tofu_dir, ignore_errors=True)
     info = {"duration": dur, "since_close": since_close}
+    if comp_result[0] is not None and comp_result[0] != ("resp", 20, "text/plain", "companion"):
+        return viol("other-call-on-the-same-client-disturbed", f"a second call on the same client object, to a server that answered "
+                    f"b'20 text/plain\\r\\ncompanion' after one second, ended with {comp_result[0]} (the main call ended with {outcome} after {dur:.2f} s)", **info)
     o2 = outcome if outcome[0] == "resp" or outcome == ("exc", "TimeoutError") else ("exc",)
+    i_ = D.find(b"\r\n")
+    t_sent = 0.01 * (len(_chunks(D, case["cuts"])) + 1)  # the scripted peer pauses 10 ms between its sends
+    if outcome[0] == "exc" and dur > t_sent + 5.0 and i_ >= 0 and D[:1] == b"2" and len(D) - (i_ + 2) > CAP and exp[0] == "exc" \
+            and case.get("term") != "trickle":
+        return viol("not-cut-off-at-the-size-cap", f"the server sent {len(D) - i_ - 2} body bytes (cap {CAP}) and then went quiet; the call waited "
+                    f"{dur:.0f} s for the timeout instead of ending at the cap", **info)
     if exp[0] == "pending" and outcome == ("exc", "TimeoutError"):
         if dur > 2 * TIMEOUT + 1:
             return viol("timeout-too-late", f"{dur}", **info)
